@@ -129,6 +129,42 @@ Definition ecase_ok (c : ecase) : bool :=
   (eerr_code (is_enable_change_membership sid leader self last gap ps t nid) =? code)
   && (if leader then list_eqbN (map (member_state self last gap) ps) states else true).
 
+(** ---- sequences of requests: validate, then Cluster.addMember(applied) / removeMember ---- *)
+Inductive req := RAdd (m : member) | RRemove (m : member).
+Definition cluster : Type := members * members.
+Definition req_code (c : cluster) (r : req) : verr :=
+  match r with
+  | RAdd m => validate_change_membership (fst c) (snd c) 0 (Some m)
+  | RRemove m => validate_change_membership (fst c) (snd c) 1 (Some m)
+  end.
+Definition apply_req (c : cluster) (r : req) : cluster :=
+  let '(applied, removed) := c in
+  match r with
+  | RAdd m => match validate_change_membership applied removed 0 (Some m) with
+              | VOk => (apply_add applied m, removed)
+              | _ => c
+              end
+  | RRemove m => match validate_change_membership applied removed 1 (Some m) with
+                 | VOk => apply_remove applied removed m
+                 | _ => c
+                 end
+  end.
+Fixpoint ninsert (x : N) (l : list N) : list N :=
+  match l with [] => [x] | y :: tl => if x <=? y then x :: l else y :: ninsert x tl end.
+Fixpoint nsort (l : list N) : list N := match l with [] => [] | x :: tl => ninsert x (nsort tl) end.
+(** a sequence case: initial applied members, then (request, observed code, observed applied
+    ids (sorted), observed removed ids (sorted)) *)
+Definition scase : Type := members * list (req * N * list N * list N).
+Fixpoint seq_ok (c : cluster) (l : list (req * N * list N * list N)) : bool :=
+  match l with
+  | [] => true
+  | (r, code, ap, rm) :: tl =>
+      let c' := apply_req c r in
+      (verr_code (req_code c r) =? code) && list_eqbN (nsort (map m_id (fst c'))) ap
+      && list_eqbN (nsort (map m_id (snd c'))) rm && seq_ok c' tl
+  end.
+Definition scase_ok (s : scase) : bool := seq_ok (fst s, []) (snd s).
+
 Fixpoint mismatches_from {A} (ok : A -> bool) (l : list A) (i : nat) : list nat :=
   match l with
   | [] => []
